@@ -114,6 +114,29 @@ def _bind(target, elt, mapping) -> bool:
 
 
 class Normalizer(ast.NodeTransformer):
+    def visit_Module(self, node):
+        # module-level tables: NAME = (literal tuple / list of simple elements), bound once, never mutated
+        stores, mutated = {}, set()
+        for x in ast.walk(node):
+            if isinstance(x, ast.Name) and isinstance(x.ctx, (ast.Store, ast.Del)):
+                stores[x.id] = stores.get(x.id, 0) + 1
+            if isinstance(x, ast.Call) and isinstance(x.func, ast.Attribute) and isinstance(x.func.value, ast.Name) \
+                    and x.func.attr in ('append', 'extend', 'insert', 'pop', 'remove', 'clear', 'sort', 'reverse'):
+                mutated.add(x.func.value.id)
+            if isinstance(x, (ast.Global,)):
+                mutated.update(x.names)
+        for st in node.body:
+            tg = None
+            if isinstance(st, ast.Assign) and len(st.targets) == 1 and isinstance(st.targets[0], ast.Name):
+                tg, val = st.targets[0].id, st.value
+            elif isinstance(st, ast.AnnAssign) and isinstance(st.target, ast.Name) and st.value is not None:
+                tg, val = st.target.id, st.value
+            if tg and isinstance(val, (ast.Tuple, ast.List)) and 0 < len(val.elts) <= MAX_ELTS \
+                    and all(_simple(e) for e in val.elts) and stores.get(tg) == 1 and tg not in mutated:
+                self.const_locals[0][tg] = val
+        self.generic_visit(node)
+        return node
+
     def __init__(self):
         self.const_locals = [{}]     # stack: function -> {name: literal tuple}
         self.func_stack = []
@@ -157,6 +180,10 @@ class Normalizer(ast.NodeTransformer):
         it = node.iter
         if isinstance(it, ast.Name) and it.id in self.const_locals[-1]:
             it = self.const_locals[-1][it.id]
+        elif isinstance(it, ast.Name) and it.id in self.const_locals[0] and len(self.const_locals) > 1 \
+                and it.id not in {x.id for x in ast.walk(self.func_stack[-1]) if isinstance(x, ast.Name)
+                                  and isinstance(x.ctx, ast.Store)}:
+            it = self.const_locals[0][it.id]
         if isinstance(it, (ast.Tuple, ast.List)) and 0 < len(it.elts) <= MAX_ELTS and not node.orelse \
                 and all(_simple(e) for e in it.elts):
             body = _degard(node.body)
